@@ -98,15 +98,27 @@ def run(m, chk):
     los, his = clamp_tests(ctx, lambda a: isinstance(a, ast.Name) and a.id == iter_name, lo, hi)
     rets = [n for n in r.stmt_nodes(ctx) if isinstance(n.ast, ast.Return) and n.ast.value is not None and any(isinstance(x, ast.Name) and x.id == iter_name for x in ast.walk(n.ast.value))]
     chk.floor("CLAMP", "returns of the iterate", len(rets), 1)
+    def reach_without(start_nodes, avoid, cut_edges):
+        seen, todo = set(), list(start_nodes)
+        while todo:
+            x = todo.pop()
+            if x in seen or x in avoid:
+                continue
+            seen.add(x)
+            for t_, lab in ctx.cfg.nodes[x].succ:
+                if lab == "exc" or (x, lab) in cut_edges:
+                    continue
+                todo.append(t_)
+        return seen
+
     for R_ in rets:
         for side, tests in (("lower", los), ("upper", his)):
-            ok = False
-            for t in tests:
-                if not ctx.cfg.edge_dominates(t.id, "f", R_.id):
-                    continue
-                after = ctx.cfg.reachable([x for x, lab in t.succ if lab == "f"][0], exc=False, avoid={t.id})
-                if not any(u.id in after and R_.id in ctx.cfg.reachable(u.id, exc=False, avoid={t.id}) for u in upd):
-                    ok = True
+            # after every update of the iterate, each path to this return traverses the passing edge of a test of that side
+            cut = {(t.id, "f") for t in tests}
+            ok = bool(tests)
+            for u in upd:
+                if R_.id in reach_without(ctx.cfg.succs(u.id, exc=False), {u.id}, cut):
+                    ok = False
             chk.ob("CLAMP", f"{NEWTON}: `{seg(R_.ast, 30)}` only after the iterate passed the {side}-limit test following its last update", ok, loc=r.loc(ctx, R_.ast),
                    detail="" if ok else f"{NEWTON}: the iterate is returned at {r.loc(ctx, R_.ast)} without having been compared with the {side} end of the interval after its last update: a parameter outside [umin, umax] can be returned", func=NEWTON, construct=f"missing {side} clamp")
     # filter + sort
